@@ -61,6 +61,7 @@ func main() {
 	}()
 	if *tier == "thorough" {
 		secondConfiguration(p, R, *repo, *verif)
+		canaries(p, R, *repo, *verif)
 	}
 	os.Exit(R.Finish(*verif, seed))
 }
